@@ -31,20 +31,24 @@ theorem mem_ite_sadd_self {α : Type} [DecidableEq α] {c : Prop} [Decidable c] 
   simp [hc, mem_sadd]
 
 structure Inv (s : GState R O) : Prop where
-  c0 : s.started = false → s.spawning = false ∧ s.spawned = [] ∧ s.everOn = false ∧
+  c0 : s.started = false → s.spawning = false ∧ s.spawned = [] ∧ s.everOn = false ∧ s.firstDone = false ∧
         ∀ ro, s.workers ro = none
   c1 : s.spawning = true → s.blocker = true
   c1' : s.spawning = false → s.pending = []
   c2 : ∀ r, aget r s.spawned = some true → r ∉ s.listed → r ∈ s.resTog
   c3 : ∀ ro, ro ∈ s.listing → ro ∉ s.indexedOnce → ro ∈ s.objTog
   c4 : ∀ r, r ∈ s.detached → s.everOn = true
+  c4' : ∀ r, r ∈ s.detached → aget r s.spawned = some true → r ∈ s.listed
   c5 : ∀ ro w, s.workers ro = some w → w.pc ≠ .queued → ro ∈ s.indexedOnce
+  c6 : ∀ r, r ∈ s.detached → (aget r s.spawned).isSome = true
+  c7 : s.started = true → s.spawning = false → s.firstDone = true
+  c8 : ∀ r, r ∈ s.first → aget r s.spawned = some true
   a : s.everOn = false → s.handled = false ∧
         ∀ ro w, s.workers ro = some w → w.gated = true ∧ (w.pc = .queued ∨ w.pc = .indexed ∨ w.pc = .waiting)
-  b : s.everOn = true → Ready s
+  b : s.everOn = true → Ready1 s
 
 theorem inv_init : Inv (GState.init : GState R O) := by
-  refine ⟨?_, ?_, ?_, ?_, ?_, ?_, ?_, ?_, ?_⟩ <;> simp [GState.init]
+  refine ⟨?_, ?_, ?_, ?_, ?_, ?_, ?_, ?_, ?_, ?_, ?_, ?_, ?_⟩ <;> simp [GState.init]
 
 theorem isOn_iff (s : GState R O) : s.isOn = true ↔ s.blocker = false ∧ s.resTog = [] ∧ s.objTog = [] := by
   simp [GState.isOn, and_assoc]
@@ -85,17 +89,37 @@ theorem started_of_worker {s : GState R O} (hi : Inv s) {ro : R × O} {w : Worke
   cases hs : s.started with
   | true => rfl
   | false =>
-    have := (hi.c0 hs).2.2.2 ro
+    have := (hi.c0 hs).2.2.2.2 ro
     simp [this] at h
 
-/-- changing only a worker's pc (not to a post-gate value illegitimately) -/
+theorem started_of_spawning {s : GState R O} (hi : Inv s) (h : s.spawning = true) : s.started = true := by
+  cases hs : s.started with
+  | true => rfl
+  | false => have := (hi.c0 hs).1; simp [h] at this
+
+/-- the momentary readiness of everything spawned so far implies the first batch's readiness -/
+theorem ready1_of_ready {s : GState R O} (hi : Inv s) (hst : s.started = true) (h : Ready s) : Ready1 s := by
+  obtain ⟨_, hsp, _, hl, hx⟩ := h
+  exact ⟨hi.c7 hst hsp, fun r hr => hl r (hi.c8 r hr), fun ro hro _ => hx ro hro⟩
+
+theorem ready1_mono {s s' : GState R O} (h : Ready1 s)
+    (h1 : s'.firstDone = s.firstDone) (h2 : s'.first = s.first)
+    (h5 : ∀ r, r ∈ s.listed → r ∈ s'.listed)
+    (h6 : ∀ ro, ro ∈ s'.listing → ro.1 ∈ s.first → ro ∈ s.listing)
+    (h7 : ∀ ro, ro ∈ s.indexedOnce → ro ∈ s'.indexedOnce) : Ready1 s' := by
+  obtain ⟨a, b, c⟩ := h
+  refine ⟨h1 ▸ a, ?_, ?_⟩
+  · intro r hr; rw [h2] at hr; exact h5 r (b r hr)
+  · intro ro hro hf; rw [h2] at hf; exact h7 ro (c ro (h6 ro hro hf) hf)
+
+/-- changing only a worker's pc -/
 theorem inv_setPc {s : GState R O} (hi : Inv s) (ro : R × O) (w : Worker) (pc : Pc)
     (hw : s.workers ro = some w)
     (h5 : pc ≠ .queued → ro ∈ s.indexedOnce)
     (ha : s.everOn = false → pc = .queued ∨ pc = .indexed ∨ pc = .waiting) :
     Inv (setPc s ro w pc) := by
   have hst := started_of_worker hi hw
-  refine ⟨?_, hi.c1, hi.c1', hi.c2, hi.c3, hi.c4, ?_, ?_, ?_⟩
+  refine ⟨?_, hi.c1, hi.c1', hi.c2, hi.c3, hi.c4, hi.c4', ?_, hi.c6, hi.c7, hi.c8, ?_, hi.b⟩
   · intro h; simp [setPc, hst] at h
   · intro ro' w' hw' hpc
     simp only [setPc] at hw'
@@ -117,32 +141,16 @@ theorem inv_setPc {s : GState R O} (hi : Inv s) (ro : R × O) (w : Worker) (pc :
       exact ⟨((hi.a he).2 ro' w hw).1, ha he⟩
     · rw [upd_other _ _ _ heq] at hw'
       exact (hi.a he).2 ro' w' hw'
-  · intro he
-    exact hi.b he
-
-theorem ready_mono {s s' : GState R O} (h : Ready s)
-    (h1 : s'.blocker = s.blocker) (h2 : s'.spawning = s.spawning) (h3 : s'.pending = s.pending)
-    (h4 : s'.spawned = s.spawned) (h5 : ∀ r, r ∈ s.listed → r ∈ s'.listed)
-    (h6 : ∀ ro, ro ∈ s'.listing → ro ∈ s.listing) (h7 : ∀ ro, ro ∈ s.indexedOnce → ro ∈ s'.indexedOnce) :
-    Ready s' := by
-  obtain ⟨a, b, c, d, e⟩ := h
-  refine ⟨h1 ▸ a, h2 ▸ b, h3 ▸ c, ?_, ?_⟩
-  · intro r hr; rw [h4] at hr; exact h5 r (d r hr)
-  · intro ro hro; exact h7 ro (e ro (h6 ro hro))
 
 theorem step_inv {s s' : GState R O} (l : Label R O) (hi : Inv s) (h : step .none s l = some s') : Inv s' := by
   cases l with
   | spawnBegin kinds =>
     simp only [step] at h
-    by_cases hs : s.started = true
-    · simp [hs] at h
-    · have hs' : s.started = false := by simpa using hs
-      simp only [hs', Bool.false_eq_true, if_false, Option.some.injEq] at h
+    split at h
+    · simp only [Option.some.injEq] at h
       subst h
-      obtain ⟨z1, z2, z3, z4⟩ := hi.c0 hs'
-      refine ⟨by simp, by simp, by simp, ?_, hi.c3, hi.c4, hi.c5, hi.a, ?_⟩
-      · intro r hr; simp [z2] at hr
-      · intro he; simp [z3] at he
+      exact ⟨by simp, by simp, by simp, hi.c2, hi.c3, hi.c4, hi.c4', hi.c5, hi.c6, by simp, hi.c8, hi.a, hi.b⟩
+    · cases h
   | spawn r =>
     simp only [step] at h
     cases hp : s.pending with
@@ -156,33 +164,62 @@ theorem step_inv {s s' : GState R O} (l : Label R O) (hi : Inv s) (h : step .non
         obtain ⟨⟨hsp, hrr⟩, hnone⟩ := hg
         subst hrr
         subst h
-        have hst : s.started = true := by
-          cases hs : s.started with
-          | true => rfl
-          | false => have := (hi.c0 hs).1; simp [hsp] at this
-        refine ⟨by simp [hst], hi.c1, by simp [hsp], ?_, hi.c3, hi.c4, hi.c5, hi.a, ?_⟩
+        have hst := started_of_spawning hi hsp
+        have hkeep : ∀ r0 x, aget r0 s.spawned = some x → aget r0 (s.spawned ++ [(r', ind)]) = some x := by
+          intro r0 x h0; simp [aget_append_single, h0]
+        refine ⟨by simp [hst], hi.c1, by simp [hsp], ?_, hi.c3, hi.c4, ?_, hi.c5, ?_, ?_, ?_, hi.a, ?_⟩
         · intro r0 hr0 hnl
           simp only [aget_append_single] at hr0
           cases hg0 : aget r0 s.spawned with
           | some x =>
             simp only [hg0, Option.some.injEq] at hr0
             subst hr0
-            have := hi.c2 r0 hg0 hnl
-            simp only [bne_iff_ne, ne_eq, reduceCtorEq, not_false_eq_true, Bool.and_true]
-            by_cases hind : ind = true
-            · simp [hind, mem_sadd, this]
-            · simp [hind, this]
+            exact mem_ite_sadd_of_mem (hi.c2 r0 hg0 hnl)
           | none =>
             simp only [hg0] at hr0
             by_cases he : r' = r0
             · subst he
               simp only [if_true, Option.some.injEq] at hr0
               subst hr0
-              simp [mem_sadd]
+              show r' ∈ (if (true && (Bug.none != Bug.noKindToggle)) = true then sadd r' s.resTog else s.resTog)
+              exact mem_ite_sadd_self (by decide)
             · simp [he] at hr0
-        · intro he
-          have := (hi.b he).2.1
-          simp [hsp] at this
+        · -- c4'
+          intro r0 hd hr0
+          have hs0 := hi.c6 r0 hd
+          cases hg0 : aget r0 s.spawned with
+          | none => simp [hg0] at hs0
+          | some x =>
+            rw [hkeep r0 x hg0] at hr0
+            cases hr0
+            exact hi.c4' r0 hd hg0
+        · -- c6
+          intro r0 hd
+          have hs0 := hi.c6 r0 hd
+          cases hg0 : aget r0 s.spawned with
+          | none => simp [hg0] at hs0
+          | some x => simp [hkeep r0 x hg0]
+        · intro _ h2; simp [hsp] at h2
+        · -- c8
+          intro r0 hr0
+          have hr0' : r0 ∈ (if (ind && !s.firstDone) = true then sadd r' s.first else s.first) := hr0
+          show aget r0 (s.spawned ++ [(r', ind)]) = some true
+          by_cases hc : (ind && !s.firstDone) = true
+          · rw [if_pos hc, mem_sadd] at hr0'
+            rcases hr0' with h0 | h0
+            · subst h0
+              have hind : ind = true := by
+                simp only [Bool.and_eq_true] at hc; exact hc.1
+              simp [aget_append_single, hnone, hind]
+            · exact hkeep r0 true (hi.c8 r0 h0)
+          · rw [if_neg hc] at hr0'
+            exact hkeep r0 true (hi.c8 r0 hr0')
+        · -- b
+          intro he
+          have hb := hi.b he
+          refine ready1_mono hb rfl ?_ (fun _ h => h) (fun _ h _ => h) (fun _ h => h)
+          show (if (ind && !s.firstDone) = true then sadd r' s.first else s.first) = s.first
+          simp [hb.1]
       · simp [hg] at h
   | spawnEnd =>
     simp only [step] at h
@@ -190,16 +227,12 @@ theorem step_inv {s s' : GState R O} (l : Label R O) (hi : Inv s) (h : step .non
     · simp only [hg, if_true, Option.some.injEq] at h
       simp only [Bool.and_eq_true, List.isEmpty_iff] at hg
       subst h
-      have hst : s.started = true := by
-        cases hs : s.started with
-        | true => rfl
-        | false => have := (hi.c0 hs).1; simp [hg.1] at this
-      refine ⟨by simp [hst], by simp, by simp [hg.2], hi.c2, hi.c3, hi.c4, hi.c5, hi.a, ?_⟩
+      have hst := started_of_spawning hi hg.1
+      refine ⟨by simp [hst], by simp, by simp [hg.2], hi.c2, hi.c3, hi.c4, hi.c4', hi.c5, hi.c6, by simp, hi.c8, hi.a, ?_⟩
       intro he
-      have := (hi.b he).2.1
-      simp [hg.1] at this
+      exact ready1_mono (hi.b he) (by simp [(hi.b he).1]) rfl (fun _ h => h) (fun _ h _ => h) (fun _ h => h)
     · simp [hg] at h
-  | check r on =>
+  | check r o on =>
     simp only [step] at h
     cases hsp : aget r s.spawned with
     | none => simp [hsp] at h
@@ -210,14 +243,23 @@ theorem step_inv {s s' : GState R O} (l : Label R O) (hi : Inv s) (h : step .non
         have hst := started_of_spawned hi hsp
         by_cases hon : on = true
         · simp only [hon, if_true, Option.some.injEq] at h
-          have hison : s.isOn = true := by rw [← hg.1]; exact hon
+          have hison : s.isOn = true := by rw [← hg.2.1]; exact hon
           have hready := ready_of_isOn hi hison
+          have hready1 := ready1_of_ready hi hst hready
           subst h
-          exact ⟨by simp [hst], hi.c1, hi.c1', hi.c2, hi.c3, (fun _ _ => rfl), hi.c5,
-                 (fun he => by simp at he), (fun _ => hready)⟩
+          refine ⟨by simp [hst], hi.c1, hi.c1', hi.c2, hi.c3, (fun _ _ => rfl), ?_, hi.c5, ?_, hi.c7, hi.c8,
+                  (fun he => by simp at he), (fun _ => hready1)⟩
+          · intro r0 hd hr0
+            exact hready.2.2.2.1 r0 hr0
+          · intro r0 hd
+            have hd' : r0 ∈ sadd r s.detached := hd
+            rw [mem_sadd] at hd'
+            rcases hd' with h0 | h0
+            · subst h0; simp [hsp]
+            · exact hi.c6 r0 h0
         · simp only [hon, Bool.false_eq_true, if_false, Option.some.injEq] at h
           subst h
-          exact ⟨hi.c0, hi.c1, hi.c1', hi.c2, hi.c3, hi.c4, hi.c5, hi.a, hi.b⟩
+          exact ⟨hi.c0, hi.c1, hi.c1', hi.c2, hi.c3, hi.c4, hi.c4', hi.c5, hi.c6, hi.c7, hi.c8, hi.a, hi.b⟩
       · cases h
   | arrive r o gated hasToggle =>
     simp only [step] at h
@@ -234,10 +276,9 @@ theorem step_inv {s s' : GState R O} (l : Label R O) (hi : Inv s) (h : step .non
           have hst := started_of_spawned hi hsp
           have hnew : ind = true → r ∉ s.listed → r ∉ s.detached := by
             intro hind hnl hd
-            have := (hi.b (hi.c4 r hd)).2.2.2.1 r (hind ▸ hsp)
-            exact hnl this
+            exact hnl (hi.c4' r hd (hind ▸ hsp))
           subst h
-          refine ⟨by simp [hst], hi.c1, hi.c1', hi.c2, ?_, hi.c4, ?_, ?_, ?_⟩
+          refine ⟨by simp [hst], hi.c1, hi.c1', hi.c2, ?_, hi.c4, hi.c4', ?_, hi.c6, hi.c7, hi.c8, ?_, ?_⟩
           · -- c3
             intro ro hro hni
             have hro' : ro ∈ (if (ind && !decide (r ∈ s.listed)) = true then sadd (r, o) s.listing
@@ -284,14 +325,18 @@ theorem step_inv {s s' : GState R O} (l : Label R O) (hi : Inv s) (h : step .non
               exact (hi.a he').2 ro w hw''
           · -- b
             intro he
-            have hready : Ready s := hi.b he
-            refine ready_mono hready rfl rfl rfl rfl (fun _ h => h) ?_ (fun _ h => h)
-            intro ro hro
+            have hready : Ready1 s := hi.b he
+            refine ready1_mono hready rfl rfl (fun _ h => h) ?_ (fun _ h => h)
+            intro ro hro hf
             have hro' : ro ∈ (if (ind && !decide (r ∈ s.listed)) = true then sadd (r, o) s.listing
                                else s.listing) := hro
             by_cases hcond : (ind && !decide (r ∈ s.listed)) = true
-            · simp only [Bool.and_eq_true, Bool.not_eq_true', decide_eq_false_iff_not] at hcond
-              exact absurd (hready.2.2.2.1 r (hcond.1 ▸ hsp)) hcond.2
+            · rw [if_pos hcond, mem_sadd] at hro'
+              simp only [Bool.and_eq_true, Bool.not_eq_true', decide_eq_false_iff_not] at hcond
+              rcases hro' with h0 | h0
+              · subst h0
+                exact absurd (hready.2.1 r hf) hcond.2
+              · exact h0
             · rw [if_neg hcond] at hro'
               exact hro'
         · cases h
@@ -301,18 +346,26 @@ theorem step_inv {s s' : GState R O} (l : Label R O) (hi : Inv s) (h : step .non
     cases hsp : aget r s.spawned with
     | none => simp [hsp] at h
     | some ind =>
-      simp only [hsp, Option.some.injEq] at h
-      subst h
-      have hst := started_of_spawned hi hsp
-      refine ⟨by simp [hst], hi.c1, hi.c1', ?_, hi.c3, hi.c4, hi.c5, hi.a, ?_⟩
-      · intro r0 hr0 hnl
-        simp only [mem_sadd, not_or] at hnl
-        have := hi.c2 r0 hr0 hnl.2
-        by_cases hc : (ind && !decide (r ∈ s.detached)) = true
-        · simp [hc, mem_sdel, this, hnl.1]
-        · simp [hc, this]
-      · intro he
-        exact ready_mono (hi.b he) rfl rfl rfl rfl (fun r0 h => by simp [mem_sadd, h]) (fun _ h => h) (fun _ h => h)
+      simp only [hsp] at h
+      split at h
+      · cases h
+      · simp only [Option.some.injEq] at h
+        subst h
+        have hst := started_of_spawned hi hsp
+        refine ⟨by simp [hst], hi.c1, hi.c1', ?_, hi.c3, hi.c4, ?_, hi.c5, hi.c6, hi.c7, hi.c8, hi.a, ?_⟩
+        · intro r0 hr0 hnl
+          have hnl' : r0 ∉ sadd r s.listed := hnl
+          simp only [mem_sadd, not_or] at hnl'
+          have := hi.c2 r0 hr0 hnl'.2
+          by_cases hc : (ind && !decide (r ∈ s.detached)) = true
+          · simp [hc, mem_sdel, this, hnl'.1]
+          · simp [hc, this]
+        · intro r0 hd hr0
+          show r0 ∈ sadd r s.listed
+          rw [mem_sadd]
+          exact Or.inr (hi.c4' r0 hd hr0)
+        · intro he
+          exact ready1_mono (hi.b he) rfl rfl (fun r0 h => by simp [mem_sadd, h]) (fun _ h _ => h) (fun _ h => h)
   | index r o =>
     simp only [step] at h
     cases hw : s.workers (r, o) with
@@ -325,10 +378,10 @@ theorem step_inv {s s' : GState R O} (l : Label R O) (hi : Inv s) (h : step .non
           (ro := (r, o)) (w := w) (pc := .indexed)
           ⟨hi.c0, hi.c1, hi.c1', hi.c2,
            (fun ro hro hni => hi.c3 ro hro (fun hm => hni (by simp [mem_sadd, hm]))),
-           hi.c4,
+           hi.c4, hi.c4',
            (fun ro w' hw' hpc' => by simp [mem_sadd, hi.c5 ro w' hw' hpc']),
-           hi.a,
-           (fun he => ready_mono (hi.b he) rfl rfl rfl rfl (fun _ h => h) (fun _ h => h)
+           hi.c6, hi.c7, hi.c8, hi.a,
+           (fun he => ready1_mono (hi.b he) rfl rfl (fun _ h => h) (fun _ h _ => h)
               (fun ro h => by simp [mem_sadd, h]))⟩
           hw (fun _ => by simp [mem_sadd]) (fun _ => Or.inr (Or.inl rfl))
         subst h
@@ -358,7 +411,7 @@ theorem step_inv {s s' : GState R O} (l : Label R O) (hi : Inv s) (h : step .non
               by_cases ht : w.hasToggle = true
               · simp [ht, mem_sdel, this, hne]
               · simp [ht, this]),
-           hi.c4, hi.c5, hi.a, hi.b⟩
+           hi.c4, hi.c4', hi.c5, hi.c6, hi.c7, hi.c8, hi.a, hi.b⟩
           hw (fun _ => hio) (fun _ => Or.inr (Or.inr rfl))
         subst h
         exact hi'
@@ -371,12 +424,13 @@ theorem step_inv {s s' : GState R O} (l : Label R O) (hi : Inv s) (h : step .non
       simp only [hw] at h
       by_cases hg : w.pc = .waiting ∧ s.isOn = true
       · simp only [hg, and_self, if_true, Option.some.injEq] at h
-        have hready := ready_of_isOn hi hg.2
+        have hst := started_of_worker hi hw
+        have hready1 := ready1_of_ready hi hst (ready_of_isOn hi hg.2)
         have hio : (r, o) ∈ s.indexedOnce := hi.c5 (r, o) w hw (by simp [hg.1])
         have hi' := inv_setPc (s := { s with everOn := true }) (ro := (r, o)) (w := w) (pc := .passed)
-          ⟨(fun hs => by have := started_of_worker hi hw; simp [this] at hs),
-           hi.c1, hi.c1', hi.c2, hi.c3, (fun _ _ => rfl), hi.c5,
-           (fun he => by simp at he), (fun _ => hready)⟩
+          ⟨(fun hs => by simp [hst] at hs),
+           hi.c1, hi.c1', hi.c2, hi.c3, (fun _ _ => rfl), hi.c4', hi.c5, hi.c6, hi.c7, hi.c8,
+           (fun he => by simp at he), (fun _ => hready1)⟩
           hw (fun _ => hio) (fun he => by simp at he)
         subst h
         exact hi'
@@ -411,7 +465,7 @@ theorem step_inv {s s' : GState R O} (l : Label R O) (hi : Inv s) (h : step .non
             have := ((hi.a he).2 (r, o) w hw).2
             simp [hg] at this
         have hi' := inv_setPc (s := { s with handled := true }) (ro := (r, o)) (w := w) (pc := .handling)
-          ⟨hi.c0, hi.c1, hi.c1', hi.c2, hi.c3, hi.c4, hi.c5,
+          ⟨hi.c0, hi.c1, hi.c1', hi.c2, hi.c3, hi.c4, hi.c4', hi.c5, hi.c6, hi.c7, hi.c8,
            (fun he => by simp [hev] at he), hi.b⟩
           hw (fun _ => hio) (fun he => by simp [hev] at he)
         subst h
@@ -437,13 +491,13 @@ theorem step_inv {s s' : GState R O} (l : Label R O) (hi : Inv s) (h : step .non
     | none => simp [hw] at h
     | some w =>
       simp only [hw] at h
-      by_cases hg : w.pc = .idle
-      · simp only [hg, if_true, Option.some.injEq] at h
+      split at h
+      · simp only [Option.some.injEq] at h
         have hi' := inv_setPc (ro := (r, o)) (w := w) (pc := .queued) hi hw (fun hq => absurd rfl hq)
           (fun _ => Or.inl rfl)
         subst h
         exact hi'
-      · simp [hg] at h
+      · cases h
   | exit r o =>
     simp only [step] at h
     cases hw : s.workers (r, o) with
@@ -454,7 +508,7 @@ theorem step_inv {s s' : GState R O} (l : Label R O) (hi : Inv s) (h : step .non
       · simp only [hg, if_true, Option.some.injEq] at h
         subst h
         have hst := started_of_worker hi hw
-        refine ⟨by simp [hst], hi.c1, hi.c1', hi.c2, hi.c3, hi.c4, ?_, ?_, hi.b⟩
+        refine ⟨by simp [hst], hi.c1, hi.c1', hi.c2, hi.c3, hi.c4, hi.c4', ?_, hi.c6, hi.c7, hi.c8, ?_, hi.b⟩
         · intro ro w' hw' hpc
           simp only at hw'
           by_cases he : ro = (r, o)
